@@ -23,6 +23,7 @@ pub struct Gen<'a> {
     pub funcs: Vec<usize>,
     pub rels: Vec<usize>,
     pub nomerge: Option<usize>,
+    pub pending: Vec<Cmd>,
 }
 
 impl<'a> Gen<'a> {
@@ -54,7 +55,12 @@ impl<'a> Gen<'a> {
         let nf = if bias == Bias::C05 { r.range(1, 2) } else { r.range(0, 1) };
         for i in 0..nf {
             funcs.push(decls.len());
-            let m = if r.chance(1, 2) { Merge::Min } else { Merge::Max };
+            let m = match r.below(if bias == Bias::C05 { 4 } else { 3 }) {
+                0 => Merge::Min,
+                1 => Merge::Max,
+                2 => Merge::Or,
+                _ => Merge::And,
+            };
             decls.push(Decl { name: format!("g{i}"), kind: Kind::Func(m), args: vec![Sort::S] });
         }
         let mut nomerge = None;
@@ -67,7 +73,7 @@ impl<'a> Gen<'a> {
             rels.push(decls.len());
             decls.push(Decl { name: "R".into(), kind: Kind::Rel, args: vec![Sort::S] });
         }
-        Gen { r, bias, p: Program { decls, cmds: vec![] }, nullary, unary, binary, num, funcs, rels, nomerge }
+        Gen { r, bias, p: Program { decls, cmds: vec![] }, nullary, unary, binary, num, funcs, rels, nomerge, pending: vec![] }
     }
 
     pub fn term(&mut self, depth: usize) -> Pat {
@@ -175,6 +181,9 @@ impl<'a> Gen<'a> {
     }
 
     pub fn command(&mut self) -> Cmd {
+        if let Some(c) = self.pending.pop() {
+            return c;
+        }
         let k = self.r.below(100);
         let d = self.r.range(0, 3);
         match self.bias {
@@ -198,7 +207,22 @@ impl<'a> Gen<'a> {
                 }
             }
             Bias::C05 => {
-                if k < 45 && !self.funcs.is_empty() {
+                if k < 8 && self.nomerge.is_some() {
+                    // two keys of a :no-merge function with (possibly) different values, unioned
+                    // afterwards: the collision is created by the rebuild
+                    let f = self.nomerge.unwrap();
+                    let (a, b) = (self.term(d.min(2)), self.term(d.min(2)));
+                    let (x, y) = (self.r.below(2) as i64, self.r.below(2) as i64);
+                    self.pending.push(Cmd::Act(Action::Union(a.clone(), b.clone())));
+                    self.pending.push(Cmd::Act(Action::Set(f, vec![b], Pat::Int(y))));
+                    Cmd::Act(Action::Set(f, vec![a], Pat::Int(x)))
+                } else if k < 16 && self.nomerge.is_some() {
+                    // :no-merge function: equal values are fine, different ones must raise an error,
+                    // also when the collision is only created later by a union
+                    let f = self.nomerge.unwrap();
+                    let t = self.term(d.min(2));
+                    Cmd::Act(Action::Set(f, vec![t], Pat::Int(self.r.below(2) as i64)))
+                } else if k < 45 && !self.funcs.is_empty() {
                     let f = *self.r.pick(&self.funcs);
                     let t = self.term(d.min(2));
                     Cmd::Act(Action::Set(f, vec![t], Pat::Int(self.r.below(7) as i64 - 2)))
